@@ -150,6 +150,43 @@ NAME_DET = 12  # determinants with more terms than this are named (abstraction b
 STATS = {"eigh": 0, "svd": 0, "out_of_family": 0}
 
 
+def _identically_symmetric(A):
+    n = A.shape[0]
+    for i in range(n):
+        for j in range(i + 1, n):
+            d = A[i, j] - A[j, i]
+            if not _is_zero(d) and not (not isinstance(d, SReal) and d == 0):
+                return False
+    return True
+
+
+def svd_sym_psd(A, full_matrices=False):
+    """SVD of a symmetric positive semi-definite matrix diagonalised by a library frame: U = V = Q (columns sorted),
+    S = eigenvalues in decreasing order; non-negativity of each eigenvalue is proved by the solver on this path
+    (otherwise the generic svd stub with |lambda| is used)."""
+    c = ctx()
+    Q, d = _diagonalising_frame(A)
+    if Q is None:
+        STATS["out_of_family"] += 1
+        raise Unsupported("svd: symmetric matrix not diagonalised by any library frame (out of family)")
+    ds = []
+    for x in d:
+        x = SReal.lift(x)
+        if not x.nn:
+            if c.prove(core._as_formula(x >= 0) if not isinstance(x >= 0, bool) else core.Formula.const(x >= 0), "eigenvalue>=0") != "holds":
+                return None
+            x = SReal(x.f, True)
+        ds.append(x)
+    dv = _np.empty(len(ds), dtype=object)
+    for i, x in enumerate(ds):
+        dv[i] = x
+    dv = dv.view(SymArray)
+    order = arrays.argsort(-dv)
+    STATS["svd"] += 1
+    Qs = Q[:, order]
+    return Qs, dv[order], Qs.T.copy()
+
+
 def eigh(A, *a, **k):
     if not is_sym(A):
         return _np.linalg.eigh(A, *a, **k)
@@ -178,6 +215,10 @@ def svd(A, full_matrices=True, compute_uv=True, **k):
         return _np.linalg.svd(A, full_matrices=full_matrices, compute_uv=compute_uv, **k)
     A = sym(A)
     n, m = A.shape
+    if n == m and compute_uv and _identically_symmetric(A):
+        r = svd_sym_psd(A)
+        if r is not None:
+            return r
     if m <= n:
         V, d = _diagonalising_frame(A.T @ A)
         if V is None:
@@ -303,6 +344,20 @@ def pinv(A, rcond=None, hermitian=False, **k):
         return out
     B = A[_np.ix_(rows, cols)]
     r, c = B.shape
+    if r == c and r >= 2 and _identically_symmetric(B):
+        # symmetric matrix diagonalised by a library frame: pinv = Q diag(1/d_i or 0) Q^T (rank-deficient members included)
+        Q, dg = _diagonalising_frame(B)
+        if Q is not None and not all(_is_zero(Q[i, j]) for i in range(r) for j in range(r) if i != j):
+            Dp = arrays.zeros((r, r))
+            for i in range(r):
+                nz = dg[i] != 0
+                if bool(nz) if isinstance(nz, Formula) else nz:
+                    Dp[i, i] = 1 / dg[i]
+            Bi = Q @ Dp @ Q.T
+            for a, j in enumerate(cols):
+                for b, i in enumerate(rows):
+                    out[j, i] = Bi[a, b]
+            return out
     if r == c:
         d = det(B)
         nz = d != 0
